@@ -3,6 +3,7 @@
 package lab
 
 import (
+	"os"
 	"github.com/saucelabs/forwarder/header"
 	"github.com/saucelabs/forwarder/httplog"
 	"context"
@@ -184,6 +185,7 @@ type ProxyOpts struct {
 	ConnectTimeout     time.Duration
 	DialTimeout        time.Duration
 	ShutdownTimeout    time.Duration
+	ShutdownSignals    []os.Signal // signals that abort the drain (forwarder's default: INT, TERM, QUIT)
 
 	WrapDial func(DialFunc) DialFunc
 	CA       *CA // harness CA: MITM signing CA and listener certificate issuer
@@ -317,6 +319,9 @@ func StartProxy(o ProxyOpts) (*ProxyInst, error) {
 	}
 	if o.ConnectTimeout > 0 {
 		cfg.ConnectTimeout = o.ConnectTimeout
+	}
+	if o.ShutdownSignals != nil {
+		cfg.ShutdownSignals = o.ShutdownSignals
 	}
 	if o.ShutdownTimeout > 0 {
 		cfg.ShutdownTimeout = o.ShutdownTimeout
